@@ -108,6 +108,10 @@ Check(m, e) ==
          ELSE IF \E f \in 1..e.n : e.out[f] # Expected(m1, f - 1) THEN
               (IF \A f \in 1..e.n : Expected(m1, f - 1) = 0 THEN "silent_branch_contributes_exact_silence" ELSE "output_is_the_documented_sum")
          ELSE ""
+    \* (a send track and a track routed to it, built while a callback was picking up its new resources: in every frame the
+    \*  probe is heard through both paths or not at all - paths = 0, or 2 = direct + send route)
+    [] e.a = "racycb" -> IF ~e.parked THEN "harness_not_parked"
+                         ELSE IF \E j \in 1..Len(e.paths) : e.paths[j] \notin {0, 2} THEN "output_is_the_documented_sum" ELSE ""
     [] e.a = "panic" -> "no_panic"
     [] e.a = "hang" -> "returns_promptly"
     [] OTHER -> ""
